@@ -334,7 +334,7 @@ def doDec (mode hexs rest : String) : String :=
             let d1 : DState := (ts.flatMap postOrder).foldl (fun (d : DState) t => (d.intern H t).2) (⟨[], 0, []⟩ : DState)
             { d1 with log := [] }
           else ⟨[], 0, []⟩
-        match decList H (toks.length + n + 2) n d0 toks with
+        match decList H (2 * (toks.length + n) + 4) n d0 toks with
         | .ok (out, d, []) =>
           s!"dec-ok {" ".intercalate (out.map (showTm H))} share={classesOf (d.log.map (·.1))}"
         | .ok (_, _, _ :: _) => "dec-fail trailing-bytes"
